@@ -10,11 +10,14 @@ mod c05;
 mod c06;
 mod c07;
 mod c08;
+mod c10;
 mod c12;
 mod c13;
 mod c16;
 mod c17;
 mod c18;
+mod c19;
+mod c20;
 mod ends;
 mod genreq;
 mod raw;
@@ -33,10 +36,12 @@ pub struct Args {
     pub out: String,
     pub threads: usize,
     pub replay: Option<String>,
+    pub case: usize,
+    pub port: u16,
 }
 
 fn parse_args() -> Args {
-    let mut a = Args { prop: String::new(), thorough: false, seed: 1, out: String::new(), threads: 8, replay: None };
+    let mut a = Args { prop: String::new(), thorough: false, seed: 1, out: String::new(), threads: 8, replay: None, case: 0, port: 0 };
     let mut it = std::env::args().skip(1);
     while let Some(x) = it.next() {
         match x.as_str() {
@@ -45,6 +50,8 @@ fn parse_args() -> Args {
             "--out" => a.out = it.next().unwrap_or_default(),
             "--threads" => a.threads = it.next().and_then(|s| s.parse().ok()).unwrap_or(8),
             "--replay" => a.replay = it.next(),
+            "--case" => a.case = it.next().and_then(|s| s.parse().ok()).unwrap_or(0),
+            "--port" => a.port = it.next().and_then(|s| s.parse().ok()).unwrap_or(0),
             p if !p.starts_with("--") => a.prop = p.to_string(),
             other => {
                 eprintln!("unknown argument {other}");
@@ -83,6 +90,10 @@ fn main() {
     let started = Instant::now();
     util::install_panic_hook();
     let mark = util::panic_mark();
+    if args.prop == "C20-child" {
+        c20::child(args.case, args.port);
+        std::process::exit(0);
+    }
     let mut rep = match args.prop.as_str() {
         "C01" => c01::run(&args),
         "C02" => c02::run(&args),
@@ -92,11 +103,14 @@ fn main() {
         "C06" => c06::run(&args),
         "C07" => c07::run(&args),
         "C08" => c08::run(&args),
+        "C10" => c10::run(&args),
         "C12" => c12::run(&args),
         "C13" => c13::run(&args),
         "C16" => c16::run(&args),
         "C17" => c17::run(&args),
         "C18" => c18::run(&args),
+        "C19" => c19::run(&args),
+        "C20" => c20::run(&args),
         other => {
             eprintln!("netmon: unknown property {other}");
             std::process::exit(64);
